@@ -8,8 +8,11 @@ RULE = ("sequences of handshake-API calls (begin_connect, prepare_send_name, han
         "invalid arguments (refusal statuses, truncated / mistagged / oversized messages, acks for the current, a stale, a wrong-cookie or a "
         "random challenge, challenge 0 and 2^32-1), reuse after disconnect; cookies empty/long/non-ASCII, names 1..255 bytes and 256, 64-bit flag "
         "sets; challenges are scripted through the edp_verif hook; oracle: a spec automaton (issued challenge / proven) and byte layouts from "
-        "the protocol document; distinct = distinct case; non-trivial = >= 3 calls")
-ASSUMPTIONS = ["the step order and timeouts of Connection::connect over a socket are exercised by the C06/C07 domains, not here",
+        "the protocol document; plus Connection::connect over a loopback socket against a scripted peer that conforms or deviates at each of its "
+        "three messages (refusal statuses, malformed / mistagged / truncated messages, wrong, stale or wrong-cookie digest, wrong order, messages "
+        "split across writes with pauses, a length prefix and part of a message followed by silence or by a close, silence, close, extra bytes), "
+        "then a send on the connection; distinct = distinct case; non-trivial = >= 3 calls")
+ASSUMPTIONS = ["over the socket (domain hsk) the client's timeout is 400 ms; silence is a peer that keeps the socket open and sends nothing more; a pause of the peer is 60 ms; a connect that has not returned after 2.5 s counts as not ending within the configured timeout",
                "md5 enters the Coq theorems as an arbitrary function; the executable MD5 of the model is validated against the md-5 crate on every digest"]
 
 
@@ -159,6 +162,104 @@ def gen_case(rng):
     return "%s %s %d %d ; %s" % (name.hex(), cookie.hex() if cookie else ".", flags, creation, " ; ".join(ops))
 
 
+def hsf(b):
+    return struct.pack(">H", len(b)) + b
+
+
+def gen_socket_case(rng):
+    """Connection::connect against a scripted peer: (case text, expectation)"""
+    name = rng.choice([b"a@b", b"client@127.0.0.1", "nöde@hößt".encode(), b"x" * 253 + b"@h"])
+    cookie = rng.choice([b"", b"secret", "gehéim".encode(), b"c" * 300])
+    flags = rng.choice([0x0000000d07df7fbd, 2**64 - 1, rng.randrange(2**64), 0])
+    creation = rng.choice([0, 1, 2**32 - 1, rng.randrange(2**32)])
+    gen = rng.choice([0, 1, 2**32 - 1, rng.randrange(2**32)])
+    pf = rng.choice([2**64 - 1, 0x0000000d07df7fbd, rng.randrange(2**64)])
+    their = rng.choice([0, 1, 2**32 - 1, rng.randrange(2**32)])
+    status = b"s" + rng.choice([b"ok", b"ok", b"ok", b"ok_simultaneous"])
+    chal = challenge_msg(pf, their, rng.randrange(2**32), rng.choice([b"peer@host", "pé@h".encode()]))
+    ack = b"a" + digest(gen, cookie)
+    msgs = [status, chal, ack]
+    conforming = True
+    why = "conforming"
+    r = rng.random()
+    k = rng.randrange(3)
+    tail = []          # actions after the three messages
+    if r < 0.35:
+        pass
+    elif r < 0.45:
+        msgs[0] = b"s" + rng.choice([b"nok", b"not_allowed", b"alive", b"bogus", b"", b"\xff"]); conforming, why = False, "status"
+    elif r < 0.55:
+        msgs[2] = b"a" + rng.choice([digest(gen, cookie + b"x"), digest((gen + 1) % 2**32, cookie), digest(their, cookie), bytes(16), digest(gen, cookie)[:15]])
+        conforming, why = False, "digest"
+    elif r < 0.63:
+        msgs[k] = rng.choice([b"", b"x" + msgs[k][1:], msgs[k][:1], msgs[k][:len(msgs[k]) // 2]]) if k != 0 else rng.choice([b"", b"x" + msgs[k][1:], b"ok"])
+        conforming, why = False, "malformed"
+    elif r < 0.7:
+        i, j = rng.sample(range(3), 2)
+        msgs[i], msgs[j] = msgs[j], msgs[i]
+        conforming, why = False, "order"
+    actions = []
+    stop = None
+    if r >= 0.7:
+        # the stream stops inside or before message k
+        full = hsf(msgs[k])
+        cut = rng.choice([0, 1, 2, 3, max(0, len(full) - 1)])
+        stop = (k, full[:min(cut, len(full) - 1)])
+        conforming, why = False, rng.choice(["silence", "close"])
+    for i, m in enumerate(msgs):
+        if stop and i == stop[0]:
+            if stop[1]:
+                actions.append("W" + stop[1].hex())
+            if why == "close":
+                actions.append("X")
+            break
+        b = hsf(m)
+        if rng.random() < 0.3 and len(b) > 2:
+            c = rng.randrange(1, len(b))
+            actions += ["W" + b[:c].hex(), "Z60", "W" + b[c:].hex()]
+        else:
+            actions.append("W" + b.hex())
+        if rng.random() < 0.2:
+            actions.append("Z60")
+    case = "hsk %s %s %d %d %d" % (name.hex(), cookie.hex() if cookie else ".", flags, creation, gen)
+    case = " ;; ".join([case] + actions)
+    exp = {"name": name, "cookie": cookie, "flags": flags, "creation": creation, "gen": gen, "pf": pf, "their": their,
+           "conforming": conforming, "why": why, "msgs": msgs, "stop": stop}
+    return case, exp
+
+
+SOCK = {}
+
+
+def socket_oracle(case, impl):
+    if impl.startswith(("PANIC", "CRASH", "TIMEOUT")) or "res=HUNG" in impl:
+        return ("violation", "connect did not return: " + impl[:60])
+    e = SOCK[case]
+    f = dict(x.split("=", 1) for x in impl.replace("send=err ", "send=err:").split())
+    wrote = bytes.fromhex(f["wrote"].replace(".", ""))
+    if f["slow"] != "0":
+        return ("violation", "connect returned long after the configured timeout")
+    name_msg = struct.pack(">H", 7 + len(e["name"])) + b"n" + struct.pack(">HI", 5, e["flags"] & 0xffffffff) + e["name"]
+    compl = struct.pack(">H", 9) + b"c" + struct.pack(">II", e["flags"] >> 32, e["creation"])
+    reply = struct.pack(">H", 21) + b"r" + struct.pack(">I", e["gen"]) + digest(e["their"], e["cookie"])
+    if e["conforming"]:
+        if f["res"] != "ok" or f["connected"] != "1" or f["state"] != "connected":
+            return ("violation", "a conforming peer (accepting status, well-formed challenge, digest of the issued challenge) is not connected: " + impl[:70])
+        if wrote != name_msg + compl + reply:
+            return ("violation", "the three handshake messages on the wire differ from the protocol layout / digest")
+        if f["send"] != "ok" or f["after"] != "some":
+            return ("violation", "a send on the freshly connected connection failed or wrote nothing")
+        return None
+    if f["res"] == "ok" or f["connected"] != "0" or f["state"] == "connected":
+        return ("violation", "the peer deviated (%s) and the connection counts as connected: %s" % (e["why"], impl[:80]))
+    if f["send"] == "ok" or f["after"] != "0":
+        return ("violation", "after a failed handshake (%s) a send succeeded or wrote bytes to the peer" % e["why"])
+    full = name_msg + compl + reply
+    if not full.startswith(wrote) or len(wrote) < len(name_msg):
+        return ("violation", "bytes written during the failed handshake are not a prefix of the protocol's client messages")
+    return None
+
+
 def run(ctx):
     rng = ctx.rng
     cases = []
@@ -188,3 +289,11 @@ def run(ctx):
                 ks.append(k)
         return ks
     ctx.diff_domain("handshake", cases, oracle=oracle, nontrivial=nontrivial, classify=classify)
+    # the same over a socket: Connection::connect against a scripted peer
+    scases = []
+    for _ in range(ctx.budget(120, 2500)):
+        c, e = gen_socket_case(rng)
+        SOCK[c] = e
+        scases.append(c)
+    ctx.diff_domain("hsk", scases, oracle=socket_oracle, nontrivial=lambda c, i: c,
+                    classify=lambda c, i: ["peer:" + SOCK[c]["why"], "connect:" + i.split()[0]])
